@@ -359,6 +359,11 @@ def load_snapshot(snap, name='work') -> Path:
 
 def handle(job):
     mode = job['mode']
+    # the documented switch for using wn from several threads: set before the connection
+    # of this job is opened (every mode starts from a fresh or snapshot database)
+    if wn.config.allow_multithreading != bool(job.get('mt')):
+        close_db()
+        wn.config.allow_multithreading = bool(job.get('mt'))
     if mode == 'steps':
         out = []
         pre = None
